@@ -284,7 +284,8 @@ def run(ctx):
         text = render.render([node]).text
         try:
             d = eng.loads(text, include_position=True)
-        except Exception:
+        except Exception as ex:
+            res.count("vocab_doc_not_accepted(C02/C19 decide):" + type(ex).__name__)
             continue
         case = {"part": "vocab", "text": text}
         msgs = safe_validate(res, eng, d, case)
